@@ -597,19 +597,25 @@ def sched_scenarios(cls: Any, tier: str = 'quick') -> Iterator[Scenario]:
                 for caches in itertools.product(cache_opts, repeat=n):
                     if n > 1 and any(len(c) > 1 for c in caches[1:]):
                         continue    # vary the first cache only
+                    # tasks in flight per employee: busy, idle, mixed
+                    nt_opts = [(1,) * n, (0,) * n]
+                    if n > 1:
+                        nt_opts.append((2,) + (0,) * (n - 1))
                     for lower in (0, 4):
-                        if cls is Manager:
-                            for mgr in (
-                                (sum(idle), None), (sum(totals), ADDRS[2]),
-                            ):
+                        for nt in (nt_opts if lower == 0 else nt_opts[:1]):
+                            if cls is Manager:
+                                for mgr in (
+                                    (sum(idle), None),
+                                    (sum(totals), ADDRS[2]),
+                                ):
+                                    yield mk_sched(
+                                        cls, totals, idle, caches, nt,
+                                        lower, mgr,
+                                    )
+                            else:
                                 yield mk_sched(
-                                    cls, totals, idle, caches, (1,) * n,
-                                    lower, mgr,
+                                    cls, totals, idle, caches, nt, lower,
                                 )
-                        else:
-                            yield mk_sched(
-                                cls, totals, idle, caches, (1,) * n, lower,
-                            )
 
 
 def employee_scenarios(tier: str = 'quick') -> Iterator[Scenario]:
